@@ -31,7 +31,12 @@ RULE = ("grammar-generated valid Newick/NEXUS/PHYLIP/FASTA documents (every supp
         "steps, TRANSLATE keys, PHYLIP dimensions, continuous cells, jplace edge numbers) replaced by inf, -inf, Infinity, nan, 1e309, 1e400, 1e-400, 0x10, "
         "1_000, non-ASCII digits, '1.', '.5', '+1', '--1', '1e', 400-digit and 11-digit numbers, empty, 1/0, 0/0, quoted forms, ...; the full cross product "
         "option set x value x field on small fixed documents in the thorough tier and a sample of it (every option set, value and field) in the quick "
-        "tier; a battery aimed at the regenerated constants (block names and synonyms, end keywords, DATATYPE keywords, initial FORMAT state, strict "
+        "tier; FIXED OPENING GRIDS run in every tier before anything budget-bound: (i) NEXUS tree files WITHOUT a TAXA block / NTAX (MrBayes, BEAST style) with a "
+        "complete or partial TRANSLATE table and leaves given by token, table label, new name, number or near miss ('3x', '0'), 126 documents, plus "
+        "random members of that class every round with prefixes, edits and one-token corruptions inside TREE statements; (ii) valid multi-block "
+        "interleaved PHYLIP documents (relaxed and strict, 2-4 blocks, 2-6 taxa) with EVERY truncation point and every single-line deletion / duplication, "
+        "each read with interleaved=True and as sequential data, every row length of an accepted read checked against the header; "
+        "a battery aimed at the regenerated constants (block names and synonyms, end keywords, DATATYPE keywords, initial FORMAT state, strict "
         "PHYLIP label widths 6-14); thorough adds every string up to a "
         "length bound over a small alphabet per format and every short NEXUS keyword sequence; non-trivial = the text is not a "
         "complete valid document (proper prefix, edited, or random) or the read ends in an error")
@@ -770,6 +775,46 @@ def tree_token_edits(rng, text, n):
         tok = text[a:b]
         new = rng.choice([tok + "x", tok + "0", tok[:-1], "x" + tok, tok.upper(), tok + "_", str(rng.randint(0, 12)), "99"])
         yield text[:a] + new + text[b:]
+
+
+def phylip_interleaved_docs(rng):
+    """valid multi-block interleaved PHYLIP documents: relaxed and strict labels, 2-4 blocks, 2-6 taxa"""
+    for strict in (False, True):
+        for nblocks in (2, 3, 4):
+            n = rng.randint(2, 6)
+            widths = [rng.randint(2, 8) for _ in range(nblocks)]
+            nchar = sum(widths)
+            labs = ["T%d" % i for i in range(n)]
+            seqs = ["".join(rng.choice("ACGT") for _ in range(nchar)) for _ in range(n)]
+            lines = ["%d %d" % (n, nchar)]
+            col = 0
+            for b, w in enumerate(widths):
+                for l, sq in zip(labs, seqs):
+                    lines.append(((l.ljust(10) if strict else l + "  ") if b == 0 else "") + sq[col:col + w])
+                if b < nblocks - 1 or rng.random() < 0.5:
+                    lines.append("")
+                col += w
+            yield strict, lines
+
+
+def phylip_interleaved_grid(rng):
+    """every truncation point and every single-line deletion / duplication of those documents, each read with
+    interleaved=True and (control) as sequential data"""
+    for strict, lines in phylip_interleaved_docs(rng):
+        text = "\n".join(lines) + "\n"
+        variants = [("valid", text)]
+        variants += [("prefix", text[:k]) for k in range(len(text))]
+        for i in range(len(lines)):
+            variants.append(("linedel", "\n".join(lines[:i] + lines[i + 1:]) + "\n"))
+            variants.append(("linedup", "\n".join(lines[:i + 1] + lines[i:]) + "\n"))
+        for origin, t in variants:
+            for inter in (True, False):
+                kwargs = {}
+                if strict:
+                    kwargs["strict"] = True
+                if inter:
+                    kwargs["interleaved"] = True
+                yield make_case("phylip", t, kwargs, "dnamatrix", "interleaved-grid:" + origin)
 
 
 GENS = {"newick": gen_newick, "nexus": gen_nexus, "phylip": gen_phylip, "fasta": gen_fasta}
@@ -1558,6 +1603,8 @@ def special_cases(ctx, dendropy, st):
     for schema, text in texts:
         for route in sorted(set(ROUTES[schema])):
             judge(ctx, dendropy, make_case(schema, text, {}, route, "special"), st)
+    for case in phylip_interleaved_grid(ctx.rng):
+        judge(ctx, dendropy, case, st)
     for k, text in enumerate(translate_only_grid()):
         judge(ctx, dendropy, make_case("nexus", text, {}, ["dataset", "treelist"][k % 2], "translate-only"), st)
         if k % 4 == 0:
